@@ -468,10 +468,19 @@ func (it *element[T]) wait(ctx context.Context, direction dqDirection) error {
 	// use the cond var for the head or tail if we're waiting for
 	// a new item. The addAfter method signals both forward and
 	// reverse waiters when the queue is empty.
+	//
+	// Waiting at the root means waiting for a new first (or, in
+	// reverse, last) element. Waiting at the last element going
+	// forward means waiting for a new back element, which signals
+	// nback, not nfront (and symmetrically in reverse.)
 	switch {
-	case (direction == dqPrev) && it.prev.isRoot():
+	case (direction == dqNext) && it.isRoot():
+		cond = it.list.nfront
+	case (direction == dqPrev) && it.isRoot():
 		cond = it.list.nback
 	case (direction == dqNext) && it.next.isRoot():
+		cond = it.list.nback
+	case (direction == dqPrev) && it.prev.isRoot():
 		cond = it.list.nfront
 	default:
 		cond = it.list.updates
